@@ -583,6 +583,7 @@ def literal_tokens(chk):
                "a<99999999999999999999>", "<1>", "a<1", "a<1><2>", "a b<3>", "1<2>", "1e5<2>", "1.5", "2.5", "-1.5", "1e30", "-1e30", "255", "256", "4294967295",
                "4294967296", "4294967297", "-1", "63", "64", "2147483648", "-2147483649", "1_0", "1,5", "1d5", "0b1", "++1", "+-1", "- 1"]
     toks.update(s.encode() for s in special)
+    literal_tokens.special = [s.encode() for s in special]
     digs = b"0123456789"
     for _ in range(4000 if not chk.thorough else 60000):
         k = rng.random()
@@ -672,6 +673,7 @@ def literal_part(chk, lit_exe, drv, problems):
     # through the public API: gd_add_spec + gd_entry on five scalar parameters
     sel = [tk for tk in toks if 0 < len(tk) <= 24 and b"\n" not in tk]
     sel = sel[::max(1, len(sel) // (1200 if not chk.thorough else 20000))]
+    sel = sorted(set(sel) | set(s for s in literal_tokens.special if 0 < len(s) <= 24 and b"\n" not in s))
     smodes = [(10, "P"), (8, "P"), (6, "Q")]
     inp = "".join("%d %s %s\n" % (st, m, tk.hex()) for tk in sel for st, m in smodes).encode()
     rc1, o1, e1 = run([lit_exe, "scalar"], inp)
